@@ -20,7 +20,8 @@ def close(a, b, atol=ATOL, rtol=RTOL):
         d = np.abs(a - b)
         ok = d <= atol + rtol * np.abs(b)
     both_inf = np.isinf(a) & np.isinf(b) & (np.sign(a) == np.sign(b))
-    return bool(np.all(ok | both_inf))
+    both_nan = np.isnan(a) & np.isnan(b)
+    return bool(np.all(ok | both_inf | both_nan))
 
 
 def maxdiff(a, b):
@@ -30,6 +31,8 @@ def maxdiff(a, b):
         return float("inf")
     with np.errstate(invalid="ignore"):
         d = np.abs(a - b)
+    d = np.where(np.isnan(a) & np.isnan(b), 0.0, d)
+    d = np.where(np.isinf(a) & np.isinf(b) & (np.sign(a) == np.sign(b)), 0.0, d)
     d = np.where(np.isnan(d), np.inf, d)
     return float(d.max()) if d.size else 0.0
 
